@@ -4,9 +4,10 @@
    finding class that the model covers (the other witnesses of the pinned tree -- rune columns,
    overlapping folds -- were repaired in /repo and are positive samples now).  What the validator
    demands is made explicit.  For EVERY byte string the positions of the token stream, which all
-   reported ranges are built from, are proved consistent (C08_token_positions_consistent). *)
-From HL Require Import Lib.Bytes Model.Lexer Model.Parser Model.References Model.Ranges Spec.RangeSpec Spec.FormatSpec Model.Formatter
-  Proofs.RangesProofs Proofs.LexerLines Proofs.LexerColumns Proofs.ParserLines Proofs.ParserErrors.
+   reported ranges are built from, are proved consistent (C08_token_positions_consistent), and so are the date, account and commodity
+   ranges of the AST, which are token ranges (C08_ast_ranges_are_token_ranges). *)
+From HL Require Import Lib.Bytes Model.Ast Model.Lexer Model.Parser Model.References Model.Ranges Spec.RangeSpec Spec.FormatSpec Model.Formatter
+  Proofs.RangesProofs Proofs.LexerLines Proofs.LexerColumns Proofs.ParserLines Proofs.ParserErrors Proofs.ParserPositions.
 Open Scope Z_scope.
 
 Theorem C08_validator_range : forall lines r, range_ok lines r = true ->
@@ -94,9 +95,33 @@ Print Assumptions C08_syntax_error_lines_inside.
    boundary of the reference walk -- so a column never points into a surrogate pair and never
    past the end of its line.  `walk` is the reference: it consumes the text rune by rune. *)
 Theorem C08_token_positions_consistent : forall text toks, lex text = Some toks ->
-  Forall (fun t => tpos_ok text (tk_pos t) /\ tpos_ok text (tk_end t)) toks.
+  Forall (tok_ok text) toks.
 Proof. exact lex_positions. Qed.
 Print Assumptions C08_token_positions_consistent.
+
+(* ... and for EVERY byte string the ranges that hover, references, rename, definition, symbols and
+   the undeclared-name diagnostics are built from -- the date of every transaction, the account of
+   every posting, every commodity that has a symbol (amount, cost, balance assertion) -- are the
+   (start, end) pair of ONE token: both ends are places of the text in the sense above and the start
+   is not behind the end (tok_ok).  What is reported is this range with 1 subtracted from lines and
+   columns. *)
+Theorem C08_ast_ranges_are_token_ranges : forall text j errs, parse text = Some (j, errs) ->
+  forall tx, In tx (j_txs j) ->
+    rng_in_text text (d_rng (tx_date tx)) /\
+    forall p, In p (tx_postings tx) ->
+      rng_in_text text (po_acct_rng p) /\
+      (forall a, po_amount p = Some a -> com_in_text text (a_com a)) /\
+      (forall c, po_cost p = Some c -> com_in_text text (a_com (co_amt c))) /\
+      (forall b, po_assert p = Some b -> com_in_text text (a_com (as_amt b))).
+Proof. exact parse_ranges_in_text. Qed.
+Print Assumptions C08_ast_ranges_are_token_ranges.
+
+(* every syntax-error diagnostic is reported at a place of the text *)
+Theorem C08_syntax_errors_in_text : forall text j errs, parse text = Some (j, errs) ->
+  forall l c, In (l, c) errs ->
+    exists off, (off <= length text)%nat /\ walk text off 0 1%N 1%N = Some (l, c).
+Proof. exact parse_errors_in_text. Qed.
+Print Assumptions C08_syntax_errors_in_text.
 
 (* what the reference walk computes, unfolded once: nothing consumed is line 1, column 1; a line feed
    starts the next line at column 1; any other rune adds its UTF-16 width (2 outside the BMP) *)
